@@ -156,6 +156,9 @@ def cold_preemption(rep, quick, rng):
     return ran
 
 
+INT_LIMIT = sys.get_int_max_str_digits() if hasattr(sys, 'get_int_max_str_digits') else 0
+
+
 def gated(gate):
     def maker(orig):
         def wrapper(self, *a, **k):
@@ -233,16 +236,20 @@ def run(rep, tier, seed, keep=False):
         nsched = 0
         ntriv = 0
 
-        def replay_states(states, label, engine, cap=None):
+        def replay_states(states, label, engine, cap=None, force=None):
             nonlocal nsched, ntriv
             todo = list(states)
+            if force:
+                todo = [st for st in todo if any(force(gtexts[i - 1]) for i in _vals(st['text']))]
             if cap and len(todo) > cap:
                 todo = rng.sample(todo, cap)
             for st in todo:
                 text = _vals(st['text'])
                 mts = [gtexts[i - 1] for i in text]
-                texts = {p + 1: concretise(mt, rng) for p, mt in enumerate(mts)}
+                texts = {p + 1: (force and force(mt)) or concretise(mt, rng) for p, mt in enumerate(mts)}
                 schedule = list(st['sched'])
+                if force and hasattr(sys, 'set_int_max_str_digits'):
+                    sys.set_int_max_str_digits(INT_LIMIT)       # every schedule starts from the process state the harness started with
                 res, s = run_schedule(engine, texts, schedule)
                 nsched += 1
                 rep.evaluations += 1
@@ -257,9 +264,10 @@ def run(rep, tier, seed, keep=False):
                         raise RuntimeError('scheduler failure %r on %r %r' % (got, texts, schedule))
                     exp = fresh(t)
                     if got[1] != exp:
+                        sh = lambda x: x if len(repr(x)) < 300 else repr(x)[:120] + ' ... (%d characters)' % len(repr(x))
                         rep.violation('C01/%s/%s' % (label, exp[0]),
-                                      'parse of %r under schedule %s gave %r, fresh engine gives %r' % (t, schedule, got[1], exp),
-                                      {'texts': texts, 'schedule': schedule, 'mode': 'schedule'})
+                                      'parse of %s under schedule %s gave %s, fresh engine gives %s' % (sh(t), schedule, sh(got[1]), sh(exp)),
+                                      {'texts': {k: sh(v) for k, v in texts.items()}, 'schedule': schedule, 'mode': 'schedule'})
                     # fidelity: model's prediction of the kind of outcome
                     mk = _vals(st['result'])[p - 1]
                     rk = 'tree' if exp[0] == 'tree' else ('lex' if 'Lexical' in exp[1] else 'gram')
@@ -274,6 +282,9 @@ def run(rep, tier, seed, keep=False):
         r = job(wd, gtexts, 2, False, False, invs, view=False, terminals=True)
         rep.tlc('EngineParse/G schedules of 2 parses', r)
         n2 = replay_states(terminals(r), 'schedule2', engine, cap=2500 if quick else None)
+        # every interleaving again with the one-numeral text spelled longer than the interpreter's conversion limit: a parse
+        # must not depend on process-wide settings another parse is changing
+        n2 += replay_states(terminals(r), 'schedule2', engine, cap=600 if quick else None, force=lambda mt: '7' * 4400 if mt == ('b',) else None)
         gtexts = [('a',), ('o',), ('a', 'b')] if quick else [('a',), ('o',), ('a', 'b'), ('a', 'o', 'b')]
         r = job(wd, gtexts, 3, False, False, invs, view=False, terminals=True)
         rep.tlc('EngineParse/G schedules of 3 parses', r)
